@@ -48,22 +48,27 @@ theorem size_obligations :
 
 /-! ## TCP relay (`Bidirectional`) -/
 
-/-- **Main TCP theorem.** For all scripts of both sockets and EVERY schedule `σ` — any interleaving
-of the two goroutines, any order of half-close / close / error on either side, Writes that stay in
-progress on a slow sink (holding a reference to the relay's copy buffer) while the other direction
-runs — followed by the completion of the pending Writes and any uninterrupted tail `τ` in which each
-goroutine gets enough turns: the relay returns, each side has received a prefix of the other side's
-bytes in order, and all of them unless that side itself refused a Write. -/
-theorem C12_tcp_fair (A B : EP) (σ τ : List TTok) (hτ : plainT τ)
-    (ha : stepsFor A.reads ≤ τ.count .a) (hb : stepsFor B.reads ≤ τ.count .b) :
-    holdsTcp A B (tcpObs A B (tcpRun A B (σ ++ [.ax, .bx] ++ τ))) = true :=
-  holdsTcp_of A B _ (tcpRun_inv A B _) (tcpRun_returned A B σ τ hτ ha hb)
+/-- **Main TCP theorem.** For all scripts of both sockets — any payload and chunking, ending in EOF, in an
+ERROR (alone or fused with the last chunk), with refused Writes, full close, or PASSIVE (a peer that ends
+only after it has been told that the other direction is over) —, all endpoint kinds, and EVERY schedule `σ`
+(any interleaving of the two goroutines, Writes that stay in progress on a slow sink) followed by the
+completion of the run: the relay returns, each side has received a prefix of the other side's bytes in
+order, and all of them unless that side itself refused a Write. Hypothesis `TcpWF`: a passive peer can be
+told (its object implements `CloseWrite`) and not both peers are passive. In particular: when one side
+FAILS while the other is passive, the relay still signals the end to the passive side and returns. -/
+theorem C12_tcp (A B : EP) (hwf : TcpWF A B) (σ : List TTok) :
+    holdsTcp A B (tcpObs A B (tcpRun A B (tcpComplete A B σ))) = true :=
+  holdsTcp_of A B _ (tcpRun_inv A B _) (tcpRun_returned A B hwf σ)
 
-/-- The same for the run the driver executes: an arbitrary schedule prefix, then the fixed drain order. -/
-theorem C12_tcp (A B : EP) (σ : List TTok) :
-    holdsTcp A B (tcpObs A B (tcpRun A B (tcpComplete A B σ))) = true := by
-  rw [tcpComplete_eq]
-  exact C12_tcp_fair A B σ _ (drain_plain _ _) (drain_counts _ _).1 (drain_counts _ _).2
+/-- **The end of a direction is signalled whatever its cause**: in every reachable state, as soon as A→B
+has left its loop — clean EOF, read error, refused write alike — the half-close has been issued on B
+(and reaches the transport iff B implements `CloseWrite`); symmetrically for B→A. -/
+theorem C12_tcp_end_is_signalled (A B : EP) (σ : List TTok) :
+    ((tcpRun A B σ).toldB B = ((tcpRun A B σ).ab.done && tryCloseWrite B.kind)) ∧
+    ((tcpRun A B σ).toldA A = ((tcpRun A B σ).ba.done && tryCloseWrite A.kind)) ∧
+    (∀ e, (tcpRun A B σ).ab.done = true → (tcpRun A B σ).ab.err = e → B.kind = .cw → (tcpRun A B σ).toldB B = true) := by
+  refine ⟨rfl, rfl, fun e hd _ hk => ?_⟩
+  simp [TcpSt.toldB, hd, hk, tryCloseWrite]
 
 /-- **In order, at every moment**: after any schedule whatsoever (fair or not, finished or not, Writes
 in progress or not) what each side has received is a prefix of what the other side sent. -/
@@ -71,13 +76,11 @@ theorem C12_tcp_in_order_always (A B : EP) (σ : List TTok) :
     (tcpRun A B σ).ab.delivered <+: A.reads.flatten ∧ (tcpRun A B σ).ba.delivered <+: B.reads.flatten :=
   ⟨(tcpRun_inv A B σ).ab.pre, (tcpRun_inv A B σ).ba.pre⟩
 
-/-- **Returns exactly when both directions have finished** (`wg.Wait`), and both do finish once pending
-Writes complete and each goroutine gets its turns. -/
-theorem C12_tcp_returns (A B : EP) (σ τ : List TTok) :
+/-- **Returns exactly when both directions have finished** (`wg.Wait`), and both do finish after every schedule. -/
+theorem C12_tcp_returns (A B : EP) (σ : List TTok) :
     ((tcpRun A B σ).returned = true ↔ (tcpRun A B σ).ab.done = true ∧ (tcpRun A B σ).ba.done = true) ∧
-    (plainT τ → stepsFor A.reads ≤ τ.count .a → stepsFor B.reads ≤ τ.count .b →
-      (tcpRun A B (σ ++ [.ax, .bx] ++ τ)).returned = true) :=
-  ⟨by simp [TcpSt.returned], tcpRun_returned A B σ τ⟩
+    (TcpWF A B → (tcpRun A B (tcpComplete A B σ)).returned = true) :=
+  ⟨by simp [TcpSt.returned], fun hwf => tcpRun_returned A B hwf σ⟩
 
 /-- **Half-close does not stop the reverse direction**, for EVERY kind of endpoint object (`A.kind`, `B.kind`
 are arbitrary): in any state in which A→B has finished (A reached EOF or failed; `tryCloseWrite(B)` was
@@ -88,8 +91,9 @@ theorem C12_tcp_reverse_continues (A B : EP) (s : TcpSt) (c : Bytes) (cs : List 
     (hne : c.isEmpty = false) (hle : c.length ≤ cloudconstants.CopyBufferSize)
     (hacc : sinkRefuses A s.aSeen s.ba.nw = false) :
     (tcpStep A B s .b).ba.delivered = s.ba.delivered ++ c ∧ (tcpStep A B s .b).ab = s.ab := by
-  refine ⟨?_, by simp [tcpStep, hq]⟩
-  simp only [tcpStep, hq, Option.isSome_none, Bool.false_eq_true, if_false, dirStep, hba, hp, rdNext, hle, if_true, hne, hacc]
+  have hnb : blockedRead B s.ba (s.toldB B) = false := by simp [blockedRead, hp]
+  refine ⟨?_, by simp [tcpStep, hq, hnb]⟩
+  simp only [tcpStep, hq, hnb, Option.isSome_none, Bool.or_self, Bool.false_eq_true, if_false, dirStep, hba, hp, rdNext, hle, if_true, hne, hacc]
   split <;> rfl
 
 /-- **What `tryCloseWrite` does, per kind**: a half-close reaches socket B exactly when A→B has finished and
@@ -115,26 +119,35 @@ theorem skel_closeWrite : Gen.Skel.tryCloseWrite = ["tcpConn.CloseWrite", "cw.Cl
 /-- **A slow Write does not stop the other direction either**: while A→B is blocked inside a Write on B
 (the sink holds a reference to A→B's copy buffer), every B→A step runs exactly as if nothing were
 pending, the pending Write is unaffected, and when it completes A→B continues with the state it had. -/
-theorem C12_tcp_slow_write (A B : EP) (s : TcpSt) (d : Dir) (hh : s.abHeld = some d) (hq : s.baHeld = none) :
+theorem C12_tcp_slow_write (A B : EP) (s : TcpSt) (d : Dir) (hh : s.abHeld = some d) (hq : s.baHeld = none)
+    (hnb : blockedRead B s.ba (s.toldB B) = false) :
     (tcpStep A B s .b).ba = dirStep B A s.aSeen s.ba ∧ (tcpStep A B s .b).abHeld = some d ∧
     (tcpStep A B s .b).ab = s.ab ∧ tcpStep A B s .a = s ∧ (tcpStep A B s .ax).ab = d := by
-  simp [tcpStep, hh, hq]
+  simp [tcpStep, hh, hq, hnb]
 
 /-- Without refused writes every byte arrives, in both directions, after every schedule. -/
-theorem C12_tcp_delivers_all (A B : EP) (σ : List TTok)
+theorem C12_tcp_delivers_all (A B : EP) (hwf : TcpWF A B) (σ : List TTok)
     (hwB : (tcpRun A B (tcpComplete A B σ)).ab.wfEnv = false) (hwA : (tcpRun A B (tcpComplete A B σ)).ba.wfEnv = false) :
     (tcpRun A B (tcpComplete A B σ)).ab.delivered = A.reads.flatten ∧
     (tcpRun A B (tcpComplete A B σ)).ba.delivered = B.reads.flatten := by
   have inv := tcpRun_inv A B (tcpComplete A B σ)
   have hd : (tcpRun A B (tcpComplete A B σ)).ab.done = true ∧ (tcpRun A B (tcpComplete A B σ)).ba.done = true := by
-    have := tcpRun_returned A B σ _ (drain_plain (stepsFor A.reads) (stepsFor B.reads)) (drain_counts _ _).1 (drain_counts _ _).2
-    rw [← tcpComplete_eq] at this
-    simpa [TcpSt.returned] using this
+    simpa [TcpSt.returned] using tcpRun_returned A B hwf σ
   have f1 := inv.ab.full hwB
   have f2 := inv.ba.full hwA
   rw [inv.ab.fin hd.1 hwB] at f1
   rw [inv.ba.fin hd.2 hwA] at f2
   exact ⟨by simpa using f1, by simpa using f2⟩
+
+/-- The honest limit of a transport without half-close: a passive peer behind a wrapper kind (`same`: how the
+tunnel side is built in production) can only be released by the final `Close`, which waits for both
+directions — with such a peer the relay does not return (outside `TcpWF`; model witness). -/
+theorem C12_tcp_passive_peer_needs_halfclose_witness :
+    (tcpRun ⟨[[1]], .eof, false, none, false, .cw⟩ ⟨[], .hold, false, none, false, .same⟩
+      (tcpComplete ⟨[[1]], .eof, false, none, false, .cw⟩ ⟨[], .hold, false, none, false, .same⟩ [])).returned = false ∧
+    (tcpRun ⟨[[1]], .eof, false, none, false, .cw⟩ ⟨[], .hold, false, none, false, .cw⟩
+      (tcpComplete ⟨[[1]], .eof, false, none, false, .cw⟩ ⟨[], .hold, false, none, false, .cw⟩ [])).returned = true := by
+  decide
 
 /-! ## UDP relay (`UDP`) -/
 
@@ -344,6 +357,19 @@ example :
     (tcpObs A B (tcpRun A B (tcpComplete A B [.ah, .b, .ax, .a, .b, .b]))).toB = [1, 2] ∧
     (tcpObs A B (tcpRun A B (tcpComplete A B [.ah, .b, .ax, .a, .b, .b]))).cwB = false := by
   decide
+
+/-- One side FAILS (read error fused with its last chunk) while the other is passive and still has data:
+`TcpWF` holds, the relay returns, everything arrives in both directions and the passive side was told. -/
+example :
+    let A : EP := ⟨[[1], [2]], .err, true, none, false, .same⟩
+    let B : EP := ⟨[[7, 8]], .hold, false, none, false, .cw⟩
+    TcpWF A B ∧
+    (tcpObs A B (tcpRun A B (tcpComplete A B [.a, .bh, .a, .bx]))).ret = true ∧
+    (tcpObs A B (tcpRun A B (tcpComplete A B [.a, .bh, .a, .bx]))).toB = [1, 2] ∧
+    (tcpObs A B (tcpRun A B (tcpComplete A B [.a, .bh, .a, .bx]))).toA = [7, 8] ∧
+    (tcpObs A B (tcpRun A B (tcpComplete A B [.a, .bh, .a, .bx]))).serr = .read ∧
+    (tcpObs A B (tcpRun A B (tcpComplete A B [.a, .bh, .a, .bx]))).cwB = true := by
+  refine ⟨⟨by decide, by decide, by decide⟩, by decide, by decide, by decide, by decide, by decide⟩
 
 /-- `holdsTcp` is not trivially true: an observation that lost a byte fails it. -/
 example : holdsTcp ⟨[[1, 2]], .eof, false, none, false, .cw⟩ ⟨[], .eof, false, none, false, .same⟩
